@@ -71,17 +71,18 @@ def obligations(tier):
         # H4: two faulty requests in a row
         for f1 in range(5):
             for f2 in range(1, 5):
-                sym = {'pre_b': (B, 0, 0), 'w1': (I, 0, 1), 'd1': (I, 0, 1), 'p1': (I, 0, 5), 'k1': (I, 1, 3),
-                       'w2': (I, 0, 1), 'd2': (I, 0, 1), 'p2': (I, 0, 5), 'k2': (I, 1, 3), 'w3': (I, 0, 1)}
-                fixed = {'q1': 5, 'j1': 1, 'f1': f1, 'g1': 0, 'f2': f2, 'g2': 0, 'd3': 'd2'}
-                if f1 == 2:
-                    sym['g1'] = (I, 0, 4)
-                    del fixed['g1']
-                if f2 == 2:
-                    sym['g2'] = (I, 0, 4)
-                    del fixed['g2']
-                obs.append(_hist(f'H4.faults{f1}{f2}', sym, fixed, f'two requests with one change each, fault kinds {f1},{f2}; probe', T,
-                                 'two faulty requests'))
+                # fault kind 2 (failed transfer of one part) is split by the part that fails (parts 0, 2, 4)
+                g1s = (0, 2, 4) if f1 == 2 else (0,)
+                g2s = (0, 2, 4) if f2 == 2 else (0,)
+                for g1 in g1s:
+                    for g2 in g2s:
+                        sym = {'pre_b': (B, 0, 0), 'w1': (I, 0, 1), 'd1': (I, 0, 1), 'p1': (I, 0, 5), 'k1': (I, 1, 3),
+                               'w2': (I, 0, 1), 'd2': (I, 0, 1), 'p2': (I, 0, 5), 'k2': (I, 1, 3), 'w3': (I, 0, 1)}
+                        fixed = {'q1': 5, 'j1': 1, 'f1': f1, 'g1': g1, 'f2': f2, 'g2': g2, 'd3': 'd2'}
+                        tag = f'H4.faults{f1}{f2}' + (f'.g{g1}{g2}' if (f1 == 2 or f2 == 2) else '')
+                        obs.append(_hist(tag, sym, fixed, f'two requests with one change each, fault kinds {f1},{f2}'
+                                         + (f' (failing parts {g1},{g2})' if (f1 == 2 or f2 == 2) else '') + '; probe', T,
+                                         'two faulty requests'))
     obs.append(Ob(id='in_tx', module=M, func='in_tx_history', params='w0: int, w1: int, w2: int, fail1: bool, stale: bool',
                   pre=['0 <= w0 <= 1 and 0 <= w1 <= 1 and 0 <= w2 <= 1'], timeout=T, group='compile_in_tx',
                   bound='compile on w0; compile_in_tx on w1 (may fail in the compiler); compile_in_tx on w2 with the latest or an older state'))
